@@ -389,7 +389,7 @@ def is_cocircular(
 
     """
     if a.dim == 1:
-        return np.isreal(crossratio(a, b, c, d))
+        return np.isclose(np.imag(crossratio(a, b, c, d)), 0, rtol, atol)
 
     elif a.dim > 2:
         e = join(a, b, c)
